@@ -405,8 +405,10 @@ def solve_sat(
             add_watch(clause[0], i)
             add_watch(clause[1], i)
 
-    for var, val in find_pure_literals():
-        if vals[var] == UNDEF:
+    # Fixing a pure literal keeps satisfiability but not the set of models, and must not override an assumption
+    assumed = {lit_var(lit) for lit in assumptions}
+    for var, val in find_pure_literals() if solution_limit == 1 else []:
+        if vals[var] == UNDEF and var not in assumed:
             assign(var, val, -1)
 
     for lit, idx in unit_clauses:
